@@ -31,6 +31,7 @@ import dns.rdataclass
 import dns.rdatatype
 import dns.resolver
 
+import c17_skel
 import lib
 from lib import Err
 
@@ -41,7 +42,7 @@ CASE_TIMEOUT = 10.0
 TRUSTED = [
     "model: coq/Model/CacheM.v (Cache value-level; LRUCache store-level with explicit prev/next ids; list-level spec alru)",
     "scripted clock bound to dns.resolver.time; scheduler shim bound to dns.resolver.threading (lock enter/exit and clock reads are the scheduling points)",
-    "AST guard in harness/pC17.py: every public method of CacheBase/Cache/LRUCache is one `with self.lock:` block (premise of the linearizability theorem)",
+    "harness/c17_skel.py (python ast reader of the cache classes): its output - the per-method table `body is one with self.lock block` and the statement skeletons - is turned into Coq obligations on every run (guard_ok_*, linearizable_*_source, skeleton_*, translation_closed)",
     "CPython threading.Lock is mutual exclusion (replaced by the shim in the concurrent histories)",
 ]
 ASSUMPTIONS = [
@@ -958,46 +959,140 @@ GUARDED = {
 }
 
 
-def ast_guard():
-    """every public method of the three classes is exactly: [docstring] + one `with self.lock:`"""
+# ------------------------------------------------------------------ generated obligations (guard + skeletons)
+_gen = {}
+
+
+def expected_skeletons():
+    """the constants of coq/Model/CacheSkel.v, for readable diffs in the log"""
+    import re
+    src = open(os.path.join(lib.COQ, "Model", "CacheSkel.v"), encoding="utf-8").read()
+    out = {}
+    for m in re.finditer(r"Definition (skel_\w+) : list string :=\s*\[(.*?)\]%string\.", src, re.S):
+        out[m.group(1)] = [x.replace('""', '"') for x in re.findall(r'"((?:[^"]|"")*)"', m.group(2))]
+    return out
+
+
+def skel_ident(k):
+    return "skel_" + k.replace(".", "_").replace("__init__", "init")
+
+
+def ensure_generated(ctx):
+    if _gen:
+        return _gen
+    r = c17_skel.read(lib.REPO)
+    errors = list(r["errors"]) + ast_guard_callsites()
+    exp = expected_skeletons()
+    meths = ["MGet", "MPut", "MFlush", "MSetMax", "MHitsFor", "MHits", "MMisses", "MSnapshot", "MReset"]
+
+    def table(classes, absent_ok=()):
+        flags = {}
+        for cname in classes:
+            for name, ok in r["atomic"].get(cname, {}).items():
+                flags[c17_skel.METH[name]] = ok
+        lines = []
+        for m in meths:
+            v = flags.get(m, m in absent_ok)
+            lines.append(f"  | {m} => {'true' if v else 'false'}")
+        return "\n".join(lines), [m for m in meths if not flags.get(m, m in absent_ok)]
+
+    lru_tbl, lru_bad = table(["CacheBase", "LRUCache"])
+    cache_tbl, cache_bad = table(["CacheBase", "Cache"], absent_ok=("MSetMax", "MHitsFor"))
+    thms = ["guard_ok_lru", "guard_ok_cache", "linearizable_lru_source", "linearizable_cache_source", "translation_closed"]
+    predicted_bad = []
+    if lru_bad:
+        predicted_bad += ["guard_ok_lru", "linearizable_lru_source"]
+    if cache_bad:
+        predicted_bad += ["guard_ok_cache", "linearizable_cache_source"]
+    if errors:
+        predicted_bad.append("translation_closed")
+    v = ["From Coq Require Import String.",
+         "From DV Require Import Base.Prelude Model.CacheM Model.CacheSkel Proofs.CacheConc Proofs.CacheGuard.",
+         f"(* regenerated from {lib.REPO}/dns/resolver.py by harness/c17_skel.py *)",
+         "Definition src_atomic_lru (m : meth) : bool :=\n  match m with\n" + lru_tbl + "\n  end.",
+         "Definition src_atomic_cache (m : meth) : bool :=\n  match m with\n" + cache_tbl + "\n  end.",
+         "Theorem guard_ok_lru : forallb src_atomic_lru all_meths = true.\nProof. vm_compute. reflexivity. Qed.",
+         "Theorem guard_ok_cache : forallb src_atomic_cache all_meths = true.\nProof. vm_compute. reflexivity. Qed."]
+    for nm, stp, tbl in (("lru", "lru_step", "src_atomic_lru"), ("cache", "cache_step", "src_atomic_cache")):
+        v.append(f"""Theorem linearizable_{nm}_source : forall s t0 ls g,
+  gexec {stp} (fun c => {tbl} (meth_of c)) (ginit s t0) ls g ->
+  exists ls' rs,
+    ls = map GL ls' /\\ exec {stp} (init_conf s t0) ls' (fst g) /\\
+    wrun {stp} (witness ls') (s, t0) = Ok (rs, (cf_obj (fst g), cf_now (fst g))) /\\
+    forall t, thread_results t (witness_tid ls') rs = responses t ls' ++ pending (cf_ph (fst g) t).
+Proof. exact (guarded_linearizable {stp} _ (guard_all _ guard_ok_{nm})). Qed.
+Print Assumptions linearizable_{nm}_source.""")
+    v.append("Definition src_translation_errors : list string := " + c17_skel.coq_skeleton(errors[:20]) + ".")
+    v.append("Theorem translation_closed : src_translation_errors = []%list.\nProof. reflexivity. Qed.")
+    diffs = []
+    for k in sorted(set(r["skeletons"]) | {kk for kk in []}):
+        ident = skel_ident(k)
+        name = "skeleton_" + ident[5:]
+        thms.append(name)
+        v.append(f"Definition src_{ident} : list string :=\n  {c17_skel.coq_skeleton(r['skeletons'][k])}.")
+        v.append(f"Theorem {name} : src_{ident} = {ident}.\nProof. reflexivity. Qed.")
+        if exp.get(ident) != r["skeletons"][k]:
+            predicted_bad.append(name)
+            want = exp.get(ident, [])
+            got = r["skeletons"][k]
+            diffs.append(f"{k}: source statements differ from the modelled ones\n   model : " + " | ".join(x for x in want if x not in got)
+                         + "\n   source: " + " | ".join(x for x in got if x not in want))
+    for ident in sorted(exp):
+        if ident not in {skel_ident(k) for k in r["skeletons"]}:
+            name = "skeleton_" + ident[5:]
+            thms.append(name)
+            predicted_bad.append(name)
+            v.append(f"Theorem {name} : ([] : list string) = {ident}.\nProof. reflexivity. Qed.")
+            diffs.append(f"{ident}: method of the model is missing from the source")
+    path = os.path.join(ctx.scratch, "GuardC17.v")
+    with open(path, "w") as f:
+        f.write("\n".join(v) + "\n")
+    lib.coq_make(["Proofs/CacheGuard.vo", "Model/CacheSkel.vo"])
+    rc, out, dt = lib.run_cmd(["coqc", "-Q", lib.COQ, "DV", "-Q", ctx.scratch, "Scratch", path], timeout=600)
+    ok = rc == 0 and out.count("Closed under the global context") == 2
+    if ok:
+        discharged = len(thms)
+    else:
+        discharged = max(0, len(thms) - len(set(predicted_bad))) if predicted_bad else 0
+    log = ""
+    if not ok:
+        log = "generated guard/skeleton obligations do not check (dns/resolver.py no longer has the shape the model assumes):\n"
+        if lru_bad or cache_bad:
+            log += f"  methods whose body is not a single `with self.lock:` block: LRUCache {lru_bad} Cache {cache_bad}\n"
+        for e in errors[:10]:
+            log += "  translator: " + e + "\n"
+        for d in diffs[:10]:
+            log += "  " + d + "\n"
+        log += "  failing obligations: " + ", ".join(sorted(set(predicted_bad))) + "\n" + out[-1500:]
+    _gen.update(ok=ok, obligations=len(thms), discharged=discharged, theorems=thms, log=log,
+                info={"methods_checked": sum(len(x) for x in r["atomic"].values()), "skeletons": len(r["skeletons"]),
+                      "not_atomic": {"LRUCache": lru_bad, "Cache": cache_bad}, "translator_errors": errors[:10],
+                      "skeleton_diffs": diffs[:10], "coqc_s": round(dt, 2)})
+    return _gen
+
+
+def generated_obligations(ctx):
+    g = ensure_generated(ctx)
+    ctx.notes["ast_guard"] = "ok" if g["ok"] else g["info"]
+    return {k: g[k] for k in ("ok", "obligations", "discharged", "theorems", "log", "info")}
+
+
+def ast_guard_callsites():
+    """private helpers that touch shared state are only called from the modelled classes"""
     path = os.path.join(lib.REPO, "dns", "resolver.py")
-    tree = ast.parse(open(path, encoding="utf-8").read())
+    try:
+        tree = ast.parse(open(path, encoding="utf-8").read())
+    except Exception as e:  # noqa
+        return [f"dns/resolver.py does not parse: {e}"]
     problems = []
-    seen = {}
-    for cls in tree.body:
-        if not (isinstance(cls, ast.ClassDef) and cls.name in GUARDED):
-            continue
-        if cls.name != "CacheBase" and [getattr(b, "id", None) for b in cls.bases] != ["CacheBase"]:
-            problems.append(f"{cls.name}: bases changed")
-        for fn in cls.body:
-            if not isinstance(fn, ast.FunctionDef):
-                continue
-            if fn.name.startswith("_"):
-                continue
-            seen.setdefault(cls.name, []).append(fn.name)
-            body = list(fn.body)
-            if body and isinstance(body[0], ast.Expr) and isinstance(getattr(body[0], "value", None), ast.Constant) \
-                    and isinstance(body[0].value.value, str):
-                body = body[1:]
-            ok = (
-                len(body) == 1
-                and isinstance(body[0], ast.With)
-                and len(body[0].items) == 1
-                and body[0].items[0].optional_vars is None
-                and ast.unparse(body[0].items[0].context_expr) == "self.lock"
-            )
-            if not ok:
-                problems.append(f"{cls.name}.{fn.name}: body is not a single `with self.lock:` block")
-            if fn.decorator_list:
-                problems.append(f"{cls.name}.{fn.name}: decorated")
-    for cname, want in GUARDED.items():
-        got = seen.get(cname, [])
-        if sorted(got) != sorted(want):
-            problems.append(f"{cname}: public methods are {sorted(got)}, the model covers {sorted(want)}")
-    # private helpers that touch shared state are only reached from the guarded methods
     allowed = {("Cache", m) for m in GUARDED["Cache"]} | {("LRUCache", m) for m in GUARDED["LRUCache"]}
     for cls in tree.body:
         if not isinstance(cls, ast.ClassDef):
+            # module-level functions must not reach into a cache
+            for node in ast.walk(cls):
+                if isinstance(node, ast.Call) and isinstance(node.func, ast.Attribute) \
+                        and node.func.attr in ("_maybe_clean", "link_after"):
+                    problems.append(f"module level code calls {node.func.attr}")
             continue
         for fn in ast.walk(cls):
             if not isinstance(fn, ast.FunctionDef):
@@ -1005,10 +1100,9 @@ def ast_guard():
             for node in ast.walk(fn):
                 if isinstance(node, ast.Call) and isinstance(node.func, ast.Attribute) \
                         and node.func.attr in ("_maybe_clean", "unlink", "link_after"):
-                    if (cls.name, fn.name) not in allowed and not (cls.name == "LRUCacheNode"):
+                    if (cls.name, fn.name) not in allowed and cls.name != "LRUCacheNode":
                         problems.append(f"{cls.name}.{fn.name} calls {node.func.attr} outside the guarded methods")
-    # the lock itself: CacheBase.__init__ creates self.lock = threading.Lock()
-    src = ast.unparse(next(c for c in tree.body if isinstance(c, ast.ClassDef) and c.name == "CacheBase"))
+    src = ast.unparse(next((c for c in tree.body if isinstance(c, ast.ClassDef) and c.name == "CacheBase"), ast.Module(body=[], type_ignores=[])))
     if "self.lock = threading.Lock()" not in src:
         problems.append("CacheBase.__init__ no longer creates self.lock = threading.Lock()")
     return problems
@@ -1017,10 +1111,6 @@ def ast_guard():
 def extra(ctx):
     F = list(_gen_failures)
     del _gen_failures[:]
-    probs = ast_guard()
-    ctx.notes["ast_guard"] = "ok" if not probs else probs
-    for p in probs:
-        F.append({"kind": "guard:methods_atomic", "what": "a public cache method is not one critical section: " + p, "sig": p})
     # exhaustive small scope, oracle only
     import multiprocessing
 
